@@ -65,6 +65,12 @@ func (g grpcClientProtocol) addProtocolResponseHeaders(meta responseMeta, header
 		}
 	}
 	for k := range meta.pendingTrailerKeys {
+		if _, alsoHeader := headers[textproto.CanonicalMIMEHeaderKey(k)]; alsoHeader {
+			// A key that is announced as a trailer is sent again from the header map when
+			// the response ends; one that is also a response header would be repeated there.
+			// Its trailer value is still delivered (via the trailer prefix).
+			continue
+		}
 		headers.Add("Trailer", textproto.CanonicalMIMEHeaderKey(k))
 	}
 	if !meta.pendingTrailerKeys.contains("Grpc-Status") {
